@@ -1,9 +1,8 @@
-(** C17, concurrent half, positive direction (bounded): for a finite alphabet of labels the set of states
-    reachable under the guard [enabled] - an AddTimeBucket (whole, or split into scan and install) and a
-    step-wise RemoveTimeBucket may interleave arbitrarily as long as they work below DIFFERENT symbols - is
-    computed by breadth-first search ([reach]); its closure under every enabled label and the consistency of
-    every quiescent state are checked by vm_compute (the system-call trace a free variable).  Induction over
-    the schedule then covers all - unboundedly long - schedules. *)
+(** C17, concurrent half, positive direction (bounded alphabet, unbounded schedules): for a finite alphabet of
+    labels the set of reachable states of the interleaving model (Model/CatalogConc.v, with the root lock) is
+    computed by breadth-first search ([reach]); its closure under EVERY label and the consistency of every
+    quiescent state are checked by vm_compute (the system-call trace a free variable).  Induction over the
+    schedule then covers all - unboundedly long - schedules, without any guard. *)
 From Coq Require Import ZArith NArith List Bool Lia.
 From Coq.Strings Require Import Byte.
 Import ListNotations.
@@ -39,7 +38,8 @@ Definition sys_eqb (a b : sys) : bool :=
 Definition cstate_eqb (a b : cstate) : bool :=
   fnode_eqb (wfs (c_world a)) (wfs (c_world b)) && heap_eqb (c_heap a) (c_heap b)
   && list_eqb (fun p q => Nat.eqb (fst p) (fst q) && dthread_eqb (snd p) (snd q)) (c_threads a) (c_threads b)
-  && list_eqb (fun p q => Nat.eqb (fst p) (fst q) && pending_eqb (snd p) (snd q)) (c_pending a) (c_pending b).
+  && list_eqb (fun p q => Nat.eqb (fst p) (fst q) && pending_eqb (snd p) (snd q)) (c_pending a) (c_pending b)
+  && optnat_eqb (c_lock a) (c_lock b).
 
 Ltac split_andb H :=
   repeat match type of H with
@@ -94,11 +94,12 @@ Qed.
 
 (** equality up to the trace *)
 Definition with_trace (tr : list sys) (s : cstate) : cstate :=
-  mkC (mkW (wfs (c_world s)) tr) (c_heap s) (c_threads s) (c_pending s).
+  mkC (mkW (wfs (c_world s)) tr) (c_heap s) (c_threads s) (c_pending s) (c_lock s).
 
 Lemma cstate_eqb_eq a b : cstate_eqb a b = true -> cforget a = cforget b.
 Proof.
-  destruct a as [[f1 t1] h1 th1 p1], b as [[f2 t2] h2 th2 p2]. unfold cstate_eqb, cforget. cbn. intros E.
+  destruct a as [[f1 t1] h1 th1 p1 k1], b as [[f2 t2] h2 th2 p2 k2]. unfold cstate_eqb, cforget. cbn. intros E.
+  apply andb_true_iff in E as [E E5].
   apply andb_true_iff in E as [E E4]. apply andb_true_iff in E as [E E3]. apply andb_true_iff in E as [E1 E2].
   apply fnode_eqb_eq in E1. apply heap_eqb_eq in E2.
   assert (th1 = th2).
@@ -107,35 +108,17 @@ Proof.
   assert (p1 = p2).
   { revert E4. apply list_eqb_eq. intros [i1 n1] [i2 n2] K. cbn in K. apply andb_true_iff in K as [K1 K2].
     apply Nat.eqb_eq in K1. apply pending_eqb_eq in K2. congruence. }
+  assert (k1 = k2).
+  { destruct k1, k2; cbn in E5; try discriminate; auto. apply Nat.eqb_eq in E5. congruence. }
   congruence.
 Qed.
-
-(* ------------------------------------------------------------------ the guard *)
-Definition key_symbol (key : list byte) : name := hd [] (split_on slash (hd [] (split_on colon key))).
-
-Definition thread_symbol (h : heap) (t : dthread) : name :=
-  match d_top t with Some id => match hget h id with Some n => h_item n | None => [] end | None => [] end.
-
-(** which labels may fire: one AddTimeBucket at a time (the root lock), one RemoveTimeBucket at a time (bound of
-    this instance), and never both below the same symbol *)
-Definition enabled (s : cstate) (l : label) : bool :=
-  match l with
-  | LCreate k _ _ | LCreateScan _ k _ _ =>
-      match c_pending s with [] => true | _ => false end
-      && forallb (fun e => negb (bytes_eqb (thread_symbol (c_heap s) (snd e)) (key_symbol k))) (c_threads s)
-  | LCreateInstall t => match nget t (c_pending s) with Some _ => true | None => false end
-  | LBegin _ k =>
-      match c_threads s with [] => true | _ => false end
-      && forallb (fun e => negb (bytes_eqb (fst (fst (fst (snd e)))) (key_symbol k))) (c_pending s)
-  | LStep t => match nget t (c_threads s) with Some _ => true | None => false end
-  end.
 
 Section Bounded.
 Variable root : list byte.
 Variable labels : list label.
 
 Definition succs (s : cstate) : list cstate :=
-  map (fun l => cforget (nstep root s l)) (filter (enabled s) labels).
+  map (fun l => cforget (nstep root s l)) labels.
 
 Fixpoint add_new (seen fresh : list cstate) (cands : list cstate) : list cstate * list cstate :=
   match cands with
@@ -156,9 +139,9 @@ Definition reach (fuel : nat) : list cstate := let s0 := cforget (cinit root) in
 
 Variable R : list cstate.
 
-(** closure of R under every enabled label, from any trace *)
+(** closure of R under every label, from any trace *)
 Definition closed (tr : list sys) : bool :=
-  forallb (fun s => forallb (fun l => negb (enabled s l) || existsb (cstate_eqb (nstep root (with_trace tr s) l)) R) labels) R.
+  forallb (fun s => forallb (fun l => existsb (cstate_eqb (nstep root (with_trace tr s) l)) R) labels) R.
 
 (** every quiescent state of R is consistent: the catalog lists what a restart would list *)
 Definition quiescent_ok : bool :=
@@ -182,7 +165,7 @@ Hypothesis Hforget : forallb (fun s => match wtr (c_world s) with [] => true | _
 Lemma R_forget x : In x R -> cforget x = x.
 Proof.
   intros H. rewrite forallb_forall in Hforget. specialize (Hforget x H).
-  destruct x as [[f t] h th p]. cbn in *. destruct t; [reflexivity|discriminate].
+  destruct x as [[f t] h th p k]. cbn in *. destruct t; [reflexivity|discriminate].
 Qed.
 
 Lemma existsb_inR s : existsb (cstate_eqb s) R = true -> inR s.
@@ -190,36 +173,28 @@ Proof.
   intros H. apply existsb_exists in H as (x & Hx & E). eapply forget_R; eauto. apply R_forget.
 Qed.
 
-Lemma step_inR s l : inR s -> In l labels -> enabled s l = true -> inR (nstep root s l).
+Lemma step_inR s l : inR s -> In l labels -> inR (nstep root s l).
 Proof.
-  intros Hs Hl He. pose proof (Hclosed (wtr (c_world s))) as C. unfold closed in C.
+  intros Hs Hl. pose proof (Hclosed (wtr (c_world s))) as C. unfold closed in C.
   rewrite forallb_forall in C. specialize (C _ Hs). rewrite forallb_forall in C. specialize (C l Hl).
-  assert (Ee : enabled (cforget s) l = enabled s l) by (destruct s as [[f t] h th p]; reflexivity).
-  rewrite Ee, He in C. cbn [negb orb] in C.
-  assert (W : with_trace (wtr (c_world s)) (cforget s) = s) by (destruct s as [[f t] h th p]; reflexivity).
+  assert (W : with_trace (wtr (c_world s)) (cforget s) = s) by (destruct s as [[f t] h th p k]; reflexivity).
   rewrite W in C. apply existsb_inR. exact C.
 Qed.
 
-(** a schedule respects the guard when every label is in the alphabet and enabled where it fires *)
-Fixpoint sched_ok (s : cstate) (ls : list label) : Prop :=
-  match ls with
-  | [] => True
-  | l :: r => In l labels /\ enabled s l = true /\ sched_ok (nstep root s l) r
-  end.
-
-Theorem guarded_consistent : forall ls, sched_ok (cinit root) ls ->
+(** every schedule over the alphabet, of any length: a quiescent state is consistent *)
+Theorem all_schedules_consistent : forall ls, Forall (fun l => In l labels) ls ->
   let st := run_labels root ls in
   all_done st = true -> map tbk_of (hlist (c_heap st)) = map tbk_of (disk_list root (c_world st)).
 Proof.
   intros ls Hs. unfold run_labels.
-  assert (G : forall ls s, inR s -> sched_ok s ls -> inR (fold_left (nstep root) ls s)).
+  assert (G : forall ls s, inR s -> Forall (fun l => In l labels) ls -> inR (fold_left (nstep root) ls s)).
   { clear ls Hs. induction ls as [|l r IH]; intros s Hi Hk; cbn [fold_left]; auto.
-    destruct Hk as (Hl & He & Hr). apply IH; auto. apply step_inR; auto. }
+    inversion Hk; subst. apply IH; auto. apply step_inR; auto. }
   specialize (G ls (cinit root) (existsb_inR _ Hinit) Hs). cbv zeta. set (st := fold_left (nstep root) ls (cinit root)) in *.
   intros Hd. unfold quiescent_ok in Hquiet. rewrite forallb_forall in Hquiet. specialize (Hquiet _ G).
-  assert (A : all_done (cforget st) = all_done st) by (destruct st as [[f t] h th p]; reflexivity).
-  assert (B : disk_list root (c_world (cforget st)) = disk_list root (c_world st)) by (destruct st as [[f t] h th p]; reflexivity).
-  assert (Ch : c_heap (cforget st) = c_heap st) by (destruct st as [[f t] h th p]; reflexivity).
+  assert (A : all_done (cforget st) = all_done st) by (destruct st as [[f t] h th p k]; reflexivity).
+  assert (B : disk_list root (c_world (cforget st)) = disk_list root (c_world st)) by (destruct st as [[f t] h th p k]; reflexivity).
+  assert (Ch : c_heap (cforget st) = c_heap st) by (destruct st as [[f t] h th p k]; reflexivity).
   rewrite A, Hd, B, Ch in Hquiet. cbn [negb orb] in Hquiet.
   revert Hquiet. generalize (hlist (c_heap st)) (disk_list root (c_world st)).
   induction l as [|x l IH]; intros [|y l0] E; cbn in E; try discriminate; auto.
